@@ -660,3 +660,32 @@ def c_poll_local_coroutine(eng, st, fr, f, args, site):
     outs = [(ns, Enum(poll.ty, ((names["Ready"], (rv,)),), "poll")) for ns, rv in res]
     outs.append((st.fork(), Enum(poll.ty, ((names["Pending"], ()),), "poll")))
     return outs
+
+
+@contract(r"^(std|core)::convert::num::<impl (std|core)::convert::From<(f32|[ui]\d+)> for f(32|64)>::from$")
+def c_from_to_float(eng, st, fr, f, args, site):
+    """Lossless widening into a float: the same terms as the `as` casts (IntToFloat / FloatToFloat)."""
+    v = args[0]
+    rt = ret_ty(eng, site)
+    if rt is None:
+        return None
+    w = eng.T.t(rt).get("bits")
+    if isinstance(v, Flt):
+        return [(st, v if v.w == w else Flt(("fcvt", v.term, v.w), w))]
+    if isinstance(v, Int):
+        return [(st, Flt(("itof", v.lin, v.w, v.signed), w))]
+    return None
+
+
+@contract(r"^<(std|core)::option::Option<T> as (std|core)::ops::FromResidual<(std|core)::option::Option<(std|core)::convert::Infallible>>>::from_residual$")
+def c_from_residual_opt(eng, st, fr, f, args, site):
+    """`?` on an Option that is None: the function's result is None."""
+    rt = ret_ty(eng, site)
+    if rt is None:
+        return None
+    o = eng.M.force(st, Top(rt, "none#%d" % eng._hv()))
+    if isinstance(o, Enum):
+        for vi, fs in o.variants:
+            if eng.T.variant_name(o.ty, vi) == "None":
+                return [(st, Enum(o.ty, ((vi, ()),), "residual"))]
+    return None
